@@ -1,3 +1,201 @@
 import Srctools.Wire
-/-! stub driver (echo) — replaced when the property's model exists. -/
-def main : IO Unit := Wire.main fun j => pure j
+import Srctools.Model.C17
+/-! Driver for the instance-collapse model (C17), scalars = `Rat` transmitted as `[num, den]`.
+requests:
+  {"op":"collapse","inst":{"name":[cp],"style":n,"fixup":[[[cp],[cp]]…],"R":[9 rat],"o":[3 rat]},
+   "tmpl":{"brushes":[solid…],"ents":[ent…]}}                      → {"brushes":[…],"ents":[…]}
+     solid = [side…]; side = {"p":[[3 rat]×3],"u":[5 rat],"v":[5 rat]}   (u/v = x y z offset scale)
+     ent   = {"keys":[[[cp],kind,payload]…],"outs":[[cp]…],"fixups":[[cp]…],"solids":[solid…]}
+     kind/payload: "pos"|"dir" [3 rat]; "axis" [[3 rat],[3 rat]]; "orient" [9 rat];
+                   "name"|"text"|"keep" [cp]; "nameOrClass" [[cp], bool]
+  {"op":"place","R":[9 rat],"o":[3 rat],"pts":[[3 rat]…]}           → {"pts":[[3 rat]…]}
+  {"op":"comp","R1":…,"o1":…,"R2":…,"o2":…}                          → {"R":[9 rat],"o":[3 rat]}
+  {"op":"tex","ax":[5 rat],"p":[3 rat]}                              → {"t":rat}
+  {"op":"subst","tbl":[[[cp],[cp]]…],"dflt":[cp],"text":[cp]}        → {"r":[cp]}
+  {"op":"fixup","style":n,"inst":[cp],"name":[cp]}                   → {"r":[cp]}
+  {"op":"collapseAll","files":[[n…]…],"init":[n…],"limit":n}         → {"collapses":n,"outcome":s,"left":n}
+  {"op":"cells","mode":"shared"|"fresh","style":n,"inst":[cp],"vals":[[cp]…],"times":n}
+        → {"results":[[[cp]…]…],"template":[[cp]…]}   (template fixups after `times` collapses)
+-/
+open Lean C17
+
+def ratOf (j : Json) : Except String Rat := do
+  let a ← j.getArr?
+  if a.size != 2 then throw "rat: need [num, den]"
+  let n ← (a[0]!).getInt?
+  let d ← (a[1]!).getNat?
+  if d == 0 then throw "rat: zero denominator"
+  pure (mkRat n d)
+
+def ofRat (r : Rat) : Json :=
+  Json.arr #[Json.num (JsonNumber.fromInt r.num), Json.num (JsonNumber.fromNat r.den)]
+
+def ratsOf (j : Json) (n : Nat) : Except String (Array Rat) := do
+  let a ← j.getArr?
+  if a.size != n then throw s!"expected {n} rationals, got {a.size}"
+  a.mapM ratOf
+
+def v3Of (j : Json) : Except String (V3 Rat) := do
+  let a ← ratsOf j 3
+  pure ⟨a[0]!, a[1]!, a[2]!⟩
+
+def ofV3 (v : V3 Rat) : Json := Json.arr #[ofRat v.x, ofRat v.y, ofRat v.z]
+
+def m3Of (j : Json) : Except String (M3 Rat) := do
+  let a ← ratsOf j 9
+  pure ⟨a[0]!, a[1]!, a[2]!, a[3]!, a[4]!, a[5]!, a[6]!, a[7]!, a[8]!⟩
+
+def ofM3 (m : M3 Rat) : Json :=
+  Json.arr #[ofRat m.aa, ofRat m.ab, ofRat m.ac, ofRat m.ba, ofRat m.bb, ofRat m.bc,
+             ofRat m.ca, ofRat m.cb, ofRat m.cc]
+
+def axOf (j : Json) : Except String (UVAxis Rat) := do
+  let a ← ratsOf j 5
+  pure ⟨⟨a[0]!, a[1]!, a[2]!⟩, a[3]!, a[4]!⟩
+
+def ofAx (a : UVAxis Rat) : Json :=
+  Json.arr #[ofRat a.dir.x, ofRat a.dir.y, ofRat a.dir.z, ofRat a.offset, ofRat a.scale]
+
+def sideOf (j : Json) : Except String (Side Rat) := do
+  let p ← (← j.getObjVal? "p").getArr?
+  if p.size != 3 then throw "side: need 3 plane points"
+  pure ⟨← v3Of p[0]!, ← v3Of p[1]!, ← v3Of p[2]!, ← axOf (← j.getObjVal? "u"), ← axOf (← j.getObjVal? "v")⟩
+
+def ofSide (s : Side Rat) : Json :=
+  Json.mkObj [("p", Json.arr #[ofV3 s.p0, ofV3 s.p1, ofV3 s.p2]), ("u", ofAx s.u), ("v", ofAx s.v)]
+
+def listOf {β : Type} (f : Json → Except String β) (j : Json) : Except String (List β) := do
+  let a ← j.getArr?
+  a.toList.mapM f
+
+def ofList {β : Type} (f : β → Json) (l : List β) : Json := Json.arr (l.map f).toArray
+
+def solidOf : Json → Except String (Solid Rat) := listOf sideOf
+def ofSolid (s : Solid Rat) : Json := ofList ofSide s
+
+def kvalOf (kind : String) (p : Json) : Except String (KVal Rat) := do
+  match kind with
+  | "pos" => pure (.pos (← v3Of p))
+  | "dir" => pure (.dir (← v3Of p))
+  | "axis" =>
+    let a ← p.getArr?
+    if a.size != 2 then throw "axis: need two points"
+    pure (.axis (← v3Of a[0]!) (← v3Of a[1]!))
+  | "orient" => pure (.orient (← m3Of p))
+  | "name" => pure (.name (← Wire.strOfCodes p))
+  | "text" => pure (.text (← Wire.strOfCodes p))
+  | "keep" => pure (.keep (← Wire.strOfCodes p))
+  | "nameOrClass" =>
+    let a ← p.getArr?
+    if a.size != 2 then throw "nameOrClass: need [text, bool]"
+    pure (.nameOrClass (← Wire.strOfCodes a[0]!) (← (a[1]!).getBool?))
+  | k => throw s!"unknown kind {k}"
+
+def ofKVal : KVal Rat → Json × Json
+  | .pos v => (Json.str "pos", ofV3 v)
+  | .dir v => (Json.str "dir", ofV3 v)
+  | .axis a b => (Json.str "axis", Json.arr #[ofV3 a, ofV3 b])
+  | .orient m => (Json.str "orient", ofM3 m)
+  | .name s => (Json.str "name", Wire.codesOfStr s)
+  | .text s => (Json.str "text", Wire.codesOfStr s)
+  | .keep s => (Json.str "keep", Wire.codesOfStr s)
+  | .nameOrClass s c => (Json.str "nameOrClass", Json.arr #[Wire.codesOfStr s, Json.bool c])
+
+def entOf (j : Json) : Except String (Ent Rat) := do
+  let keys ← listOf (fun k => do
+    let a ← k.getArr?
+    if a.size != 3 then throw "key: need [key, kind, payload]"
+    let name ← Wire.strOfCodes a[0]!
+    let kind ← (a[1]!).getStr?
+    pure (name, ← kvalOf kind a[2]!)) (← j.getObjVal? "keys")
+  pure { keys := keys,
+         outs := ← listOf Wire.strOfCodes (← j.getObjVal? "outs"),
+         fixups := ← listOf Wire.strOfCodes (← j.getObjVal? "fixups"),
+         solids := ← listOf solidOf (← j.getObjVal? "solids") }
+
+def ofEnt (e : Ent Rat) : Json :=
+  Json.mkObj [
+    ("keys", ofList (fun kv => let (k, p) := ofKVal kv.2; Json.arr #[Wire.codesOfStr kv.1, k, p]) e.keys),
+    ("outs", ofList Wire.codesOfStr e.outs),
+    ("fixups", ofList Wire.codesOfStr e.fixups),
+    ("solids", ofList ofSolid e.solids)]
+
+def tableOf (j : Json) : Except String FixTable :=
+  listOf (fun p => do
+    let a ← p.getArr?
+    if a.size != 2 then throw "fixup: need [key, value]"
+    pure (← Wire.strOfCodes a[0]!, ← Wire.strOfCodes a[1]!)) j
+
+def placementOf (r o : Json) : Except String (Placement Rat) := do
+  pure ⟨← m3Of r, ← v3Of o⟩
+
+def instOf (j : Json) : Except String (Inst Rat) := do
+  pure { name := ← Wire.strOfCodes (← j.getObjVal? "name"),
+         style := Style.ofCode (← j.getObjValAs? Nat "style"),
+         fixup := ← tableOf (← j.getObjVal? "fixup"),
+         P := ← placementOf (← j.getObjVal? "R") (← j.getObjVal? "o") }
+
+def outcomeStr : Outcome → String
+  | .done => "done"
+  | .recursion => "recursion"
+  | .missing => "missing"
+
+def handle (j : Json) : Except String Json := do
+  let op ← j.getObjValAs? String "op"
+  match op with
+  | "collapse" =>
+    let I ← instOf (← j.getObjVal? "inst")
+    let t ← j.getObjVal? "tmpl"
+    let T : Template Rat := { brushes := ← listOf solidOf (← t.getObjVal? "brushes"),
+                              ents := ← listOf entOf (← t.getObjVal? "ents") }
+    let r := collapse T I
+    pure (Json.mkObj [("brushes", ofList ofSolid r.brushes), ("ents", ofList ofEnt r.ents)])
+  | "place" =>
+    let P ← placementOf (← j.getObjVal? "R") (← j.getObjVal? "o")
+    let pts ← listOf v3Of (← j.getObjVal? "pts")
+    pure (Json.mkObj [("pts", ofList ofV3 (pts.map (place P)))])
+  | "comp" =>
+    let P1 ← placementOf (← j.getObjVal? "R1") (← j.getObjVal? "o1")
+    let P2 ← placementOf (← j.getObjVal? "R2") (← j.getObjVal? "o2")
+    let P := P1.comp P2
+    pure (Json.mkObj [("R", ofM3 P.R), ("o", ofV3 P.o)])
+  | "tex" =>
+    let ax ← axOf (← j.getObjVal? "ax")
+    let p ← v3Of (← j.getObjVal? "p")
+    pure (Json.mkObj [("t", ofRat (texCoord ax p))])
+  | "subst" =>
+    let t ← tableOf (← j.getObjVal? "tbl")
+    let d ← Wire.strOfCodes (← j.getObjVal? "dflt")
+    let s ← Wire.strOfCodes (← j.getObjVal? "text")
+    pure (Json.mkObj [("r", Wire.codesOfStr (substitute t d s))])
+  | "fixup" =>
+    let st := Style.ofCode (← j.getObjValAs? Nat "style")
+    let i ← Wire.strOfCodes (← j.getObjVal? "inst")
+    let n ← Wire.strOfCodes (← j.getObjVal? "name")
+    pure (Json.mkObj [("r", Wire.codesOfStr (fixupName st i n))])
+  | "collapseAll" =>
+    let files ← listOf Wire.natList (← j.getObjVal? "files")
+    let init ← Wire.natList (← j.getObjVal? "init")
+    let limit ← j.getObjValAs? Nat "limit"
+    let r := collapseAll files limit init
+    pure (Json.mkObj [("collapses", Json.num (JsonNumber.fromNat r.collapses)),
+                      ("outcome", Json.str (outcomeStr r.outcome)),
+                      ("left", Json.num (JsonNumber.fromNat r.left))])
+  | "cells" =>
+    let mode ← j.getObjValAs? String "mode"
+    let m := if mode == "shared" then CopyMode.shared else CopyMode.fresh
+    let st := Style.ofCode (← j.getObjValAs? Nat "style")
+    let i ← Wire.strOfCodes (← j.getObjVal? "inst")
+    let vals ← listOf Wire.strOfCodes (← j.getObjVal? "vals")
+    let times ← j.getObjValAs? Nat "times"
+    let I : Inst Rat := { name := i, style := st, fixup := [], P := Placement.id }
+    let locs := List.range vals.length
+    let step := fun (acc : List (List (List Char)) × Store) (_ : Nat) =>
+      let (r, s) := collapseCells m (fixupFix I) acc.2 locs
+      (acc.1 ++ [r], s)
+    let (results, store) := (List.range times).foldl step ([], vals)
+    pure (Json.mkObj [("results", ofList (ofList Wire.codesOfStr) results),
+                      ("template", ofList Wire.codesOfStr (readCells store locs))])
+  | _ => throw s!"unknown op {op}"
+
+def main : IO Unit := Wire.main handle
